@@ -163,6 +163,43 @@ func c01sched(c *core.Ctx) {
 		}
 		vsched.Logf("ok")
 	}})
+	// (d) a subscriber that precedes a healthy one in the subscriber list is being torn
+	// down while messages are fanned out: the healthy one still gets every message
+	for _, q := range []byte{0, 1} {
+		q := q
+		scs = append(scs, scen{fmt.Sprintf("fan-out past a subscriber that is being torn down (QoS %d)", q), func() {
+			t := newTD()
+			p1 := t.connect("P1", 0, 65535, false)
+			d := t.connect("D", 0, 65535, false)
+			s := t.connect("S", 0, 65535, false)
+			t.subscribe("D", "t", q)
+			t.subscribe("S", "t", q)
+			if vsched.Failed() {
+				return
+			}
+			vsched.Mark()
+			for k := 0; k < 3; k++ {
+				p1.rc.Conn.Write(refcodec.Encode(&refcodec.Packet{Type: refcodec.PUBLISH, Topic: []byte("t"), QoS: q, ID: uint16(30 + k), Payload: []byte(fmt.Sprintf("n%d", k))}))
+				if k == 0 {
+					d.rc.Cut()
+					d.ended = true
+				}
+			}
+			t.settleExcept()
+			got := publishesOn(s.rc.Take(), "t")
+			if len(got) != 3 {
+				vsched.Failf("S holds a matching subscription and received %d of 3 messages while another subscriber was torn down: %s", len(got), Describe(got))
+				return
+			}
+			for k, pk := range got {
+				if string(pk.Payload) != fmt.Sprintf("n%d", k) || pk.QoS != q {
+					vsched.Failf("S received %s where n%d at QoS %d was due", pk, k, q)
+					return
+				}
+			}
+			vsched.Logf("ok")
+		}})
+	}
 	for _, sc := range scs {
 		if c.Expired() || c.HasViolation() {
 			return
